@@ -102,4 +102,62 @@ func c18JwkFacts(l *lean) {
 		})
 	}
 	l.def("jwkRefusals", "List String", leanStrList(msgs), msgs)
+	// vdr/resolver/did.go: the chain loop, the router lookup / registration, deactivatedError.Is
+	_, rf := parseFile("vdr/resolver/did.go")
+	for _, d := range rf.Decls {
+		fd, ok := d.(*ast.FuncDecl)
+		if !ok || fd.Recv == nil || len(fd.Recv.List) != 1 {
+			continue
+		}
+		recv := strings.TrimPrefix(exprString(fd.Recv.List[0].Type), "*")
+		var name string
+		switch recv + "." + fd.Name.Name {
+		case "ChainedDIDResolver.Resolve":
+			name = "chainFlow_Resolve"
+		case "DIDResolverRouter.Resolve":
+			name = "routerFlow_Resolve"
+		case "DIDResolverRouter.Register":
+			name = "routerFlow_Register"
+		case "deactivatedError.Is":
+			name = "deactivatedIsFlow"
+		default:
+			continue
+		}
+		fl := c18FlowOfLoops(fd)
+		l.def(name, "List String", leanStrList(fl), fl)
+	}
+}
+
+// c18FlowOfLoops: like c18FlowOf, with range / for / continue / break spelled out
+func c18FlowOfLoops(fd *ast.FuncDecl) []string {
+	var flow []string
+	var visit func(n ast.Node) bool
+	visit = func(n ast.Node) bool {
+		switch x := n.(type) {
+		case *ast.RangeStmt:
+			flow = append(flow, "range "+condString(x.X))
+			return true
+		case *ast.ForStmt:
+			if x.Cond != nil {
+				flow = append(flow, "for "+condString(x.Cond))
+			} else {
+				flow = append(flow, "for")
+			}
+			return true
+		case *ast.BranchStmt:
+			flow = append(flow, x.Tok.String())
+			return true
+		case *ast.IfStmt:
+			flow = append(flow, "if "+condString(x.Cond))
+			ast.Inspect(x.Body, visit)
+			if x.Else != nil {
+				flow = append(flow, "else")
+				ast.Inspect(x.Else, visit)
+			}
+			return false
+		}
+		return c18FlowVisit(n, &flow)
+	}
+	ast.Inspect(fd.Body, visit)
+	return flow
 }
